@@ -144,7 +144,7 @@ def check(pid, tier, seed):
         if need_release:
             impl_rel, ierr2 = L.run_impl(lines, "release")
             ierr += ierr2
-        model, merr = (L.run_model(lines) if drv_ok else ({}, ["driver unavailable: " + drv_log[-300:]]))
+        model, merr = (L.run_model(lines, env_extra=P.get("model_env")) if drv_ok else ({}, ["driver unavailable: " + drv_log[-300:]]))
         disagreements = []
         for i, c in enumerate(cases):
             k = str(i)
